@@ -99,6 +99,9 @@ async fn target_accept_loop(l: TcpListener, queue: Arc<Mutex<VecDeque<TargetJob>
                 drop(s);
             }
             Some(job) => {
+                if let Some(n) = job.script.rcvbuf {
+                    let _ = crate::io::set_rcvbuf(&s, n);
+                }
                 tokio::spawn(async move {
                     let obs = run_side(Box::new(s) as BoxStream, &job.script).await;
                     let _ = job.done.send(obs);
@@ -268,11 +271,11 @@ impl World {
         // one byte through the tunnel (waits for the WebSocket connection)
         let (tx, rx) = oneshot::channel();
         self.slots[0].queue.lock().unwrap().push_back(TargetJob {
-            script: Script { role: Role::Echo, send: vec![], chunk: Chunk::Whole, read_delay_ms: 0, gate: None },
+            script: Script { role: Role::Echo, send: vec![], chunk: Chunk::Whole, read_delay_ms: 0, gate: None, rcvbuf: None },
             done: tx,
         });
         let s = TcpStream::connect(("127.0.0.1", self.tcp_ports[0])).await.map_err(|e| format!("warm-up connect: {e}"))?;
-        let sc = Script { role: Role::Normal { after_peer_eof: false, shutdown: true }, send: vec![0x42], chunk: Chunk::Whole, read_delay_ms: 0, gate: None };
+        let sc = Script { role: Role::Normal { after_peer_eof: false, shutdown: true }, send: vec![0x42], chunk: Chunk::Whole, read_delay_ms: 0, gate: None, rcvbuf: None };
         let obs = tokio::time::timeout(Duration::from_secs(25), run_side(Box::new(s), &sc)).await.map_err(|_| "warm-up echo timed out".to_string())?;
         let _ = tokio::time::timeout(Duration::from_secs(5), rx).await;
         if obs.received != [0x42] {
